@@ -2,14 +2,14 @@
 BOTH = "proof { T::from_bool_roundtrip(true); T::from_bool_roundtrip(false); }"
 
 UNITS = [
-    Unit(name="invert_bool", file="src/query/atom.rs", fn="invert_bool", order=33, serves=["C05"],
+    Unit(name="invert_bool", file="src/query/atom.rs", fn="invert_bool", order=33, serves=["C05", "C14"],
          ensures=[("def", "r.root == state.root && r.data == Data::<T>::Value(T::from_bool_spec(!truthy(state)))")],
          closures={1: Cl(expect="v.as_bool()", types=["T"], ret="(ob: Option<bool>)", ensures=[("def", "ob == v.as_bool_spec()")])}),
-    Unit(name="Test::is_res_bool", file="src/parser/model.rs", impl="impl Test", fn="is_res_bool", order=33, serves=["C05", "C10"],
+    Unit(name="Test::is_res_bool", file="src/parser/model.rs", impl="impl Test", fn="is_res_bool", order=33, serves=["C05", "C10", "C14"],
          ret_name="b",
          ensures=[("def", "b == (*self matches Test::Function(tf) && fn_is_logical(*tf))")]),
     Unit(name="FilterAtom::process", calls=['Filter::process', 'Test::process', 'Comparison::process'], file="src/query/atom.rs", impl="impl Query for FilterAtom", fn="process", order=33,
-         trait_method=True, serves=["C05", "C10"],
+         trait_method=True, serves=["C05", "C10", "C14"],
          impl_extra="""
     open spec fn process_pre<'a, T: Queryable>(&self, state: State<'a, T>) -> bool { wf_atom(*self) && is_cur(state) }
     open spec fn process_rel<'a, T: Queryable>(&self, state: State<'a, T>, r: State<'a, T>) -> bool {
@@ -26,7 +26,7 @@ UNITS = [
          closures={1: Cl(expect="State::bool(b, state.root)", types=["bool"], ret="(s: State<'a, T>)",
                          ensures=[("def", "s.root == state.root && s.data == Data::<'a, T>::Value(T::from_bool_spec(b))")])}),
     Unit(name="Test::process", calls=['Vec<Segment>::process', 'JpQuery::process', 'TestFunction::process'], file="src/query/test.rs", impl="impl Query for Test", fn="process", order=34,
-         trait_method=True, serves=["C05"],
+         trait_method=True, serves=["C05", "C14"],
          impl_extra="""
     open spec fn process_pre<'a, T: Queryable>(&self, state: State<'a, T>) -> bool { wf_test(*self) && is_cur(state) }
     open spec fn process_rel<'a, T: Queryable>(&self, state: State<'a, T>, r: State<'a, T>) -> bool {
